@@ -11,7 +11,6 @@ import (
 	"encoding/json"
 	"math/big"
 	"regexp"
-	"strings"
 
 	. "vh/kit"
 )
@@ -140,9 +139,8 @@ func (n *jnode) remove(at int) {
 var intLit = regexp.MustCompile(`^-?(0|[1-9][0-9]*)$`)
 
 // readTree parses b. valid = b is one JSON value (encoding/json's own lexer
-// decides); representable = the tree is inside what C18_Json models (ASCII
-// member names, no "-0" literal, no CR/LF inside a string that a []byte
-// target would base64-decode).
+// decides); representable = the tree is inside what C18_Json models (no "-0"
+// literal: the model keeps integers as values).
 func readTree(b []byte) (tree *jnode, valid bool, representable bool) {
 	if !json.Valid(b) {
 		return nil, false, true
@@ -167,9 +165,6 @@ func readTree(b []byte) (tree *jnode, valid bool, representable bool) {
 			}
 			return jnum(string(v))
 		case string:
-			if strings.ContainsAny(v, "\r\n") {
-				rep = false
-			}
 			return jstr(v)
 		case json.Delim:
 			switch v {
@@ -188,11 +183,6 @@ func readTree(b []byte) (tree *jnode, valid bool, representable bool) {
 						panic(err)
 					}
 					key := kt.(string)
-					for i := 0; i < len(key); i++ {
-						if key[i] >= 0x80 {
-							rep = false
-						}
-					}
 					n.mem = append(n.mem, jmem{key, rd()})
 				}
 				dec.Token()
